@@ -68,6 +68,9 @@ pub fn cap_ints(s: &mut PushState, cap: i32) {
     }
 }
 
+pub fn matches_filter(name: &str, filter: &str) -> bool {
+    matches(name, filter)
+}
 fn matches(name: &str, filter: &str) -> bool {
     // filter: comma separated prefixes or exact names; "*" = everything; "!X" excludes prefix X
     if filter == "*" {
@@ -110,9 +113,11 @@ pub fn run(seed: u64, tier: &str, filter: &str, count: Option<u64>, out: &mut dy
                 if name == "CODE.RAND" {
                     // the size operand of CODE.RAND is used by absolute value
                     let n = st.int_stack.size();
+                    let cfg_small = (st.configuration.max_points_in_random_expressions as i64).abs() <= 3000;
                     for i in 0..n {
                         if let Some(v) = st.int_stack.get_mut(i) {
-                            if *v < -2000 {
+                            // i32::MIN itself stays when the configured maximum bounds it on a correct tree
+                            if *v < -2000 && !(*v == i32::MIN && cfg_small) {
                                 *v = -((*v as i64).abs() % 2000) as i32;
                             }
                         }
@@ -156,7 +161,11 @@ pub fn run_codeops(seed: u64, tier: &str, filter: &str, out: &mut dyn FnMut(Stri
             let mut st = gen_state(&mut r, &GenOpts { instrs: &inert, rich, item_depth: 2 });
             st.code_stack.flush();
             let depth = 1 + r.below(4) as u32;
-            let top = if r.chance(1, 8) { crate::gen::gen_atom(&mut r, &inert) } else { gen_item(&mut r, depth, &inert) };
+            let top = match r.below(8) {
+                0 => crate::gen::gen_atom(&mut r, &inert),
+                1 | 2 => gen_item(&mut r, depth, &inert),
+                _ => crate::gen::gen_tree(&mut r, depth, &inert),
+            };
             let size = Item::size(&top) as i64;
             let sub = |r: &mut Rng, t: &Item| -> Item {
                 let k = r.below(Item::size(t) as u64) as usize;
@@ -168,7 +177,13 @@ pub fn run_codeops(seed: u64, tier: &str, filter: &str, out: &mut dyn FnMut(Stri
                 st.code_stack.push(third);
             }
             if ncode >= 2 {
-                let second = if r.chance(3, 5) { sub(&mut r, &top) } else { gen_item(&mut r, 2, &inert) };
+                let second = match r.below(10) {
+                    0..=4 => sub(&mut r, &top),
+                    5 => crate::gen::print_alike(&mut r, &top),
+                    6 => top.clone(),
+                    7 => { let p = sub(&mut r, &top); crate::gen::print_alike(&mut r, &p) }
+                    _ => gen_item(&mut r, 2, &inert),
+                };
                 st.code_stack.push(second);
             }
             if ncode >= 1 {
@@ -353,7 +368,8 @@ pub fn run_starve(seed: u64, tier: &str, out: &mut dyn FnMut(String)) {
                         let n = st.int_stack.size();
                         for i in 0..n {
                             if let Some(v) = st.int_stack.get_mut(i) {
-                                if *v < -2000 {
+                                // i32::MIN itself stays: the configured maximum bounds it on a correct tree
+                            if *v < -2000 && *v != i32::MIN {
                                     *v = -((*v as i64).abs() % 2000) as i32;
                                 }
                             }
